@@ -254,9 +254,16 @@ impl<'a> Parser<'a> {
         let mut is_absolute = false;
         let mut segments = Vec::new();
 
-        // Check for leading `..` (Python-style parent navigation)
-        while self.match_op(OperatorId::DotDot) {
-            parent_levels += 1;
+        // Check for leading `..` / `...` (Python-style parent navigation; the lexer emits `...` as one
+        // Ellipsis token, which stands for two levels: `...shared` is the grandparent's `shared`)
+        loop {
+            if self.match_op(OperatorId::DotDot) {
+                parent_levels += 1;
+            } else if self.match_punct(PunctuationId::Ellipsis) {
+                parent_levels += 2;
+            } else {
+                break;
+            }
         }
 
         // Check for `crate` (absolute path)
